@@ -413,6 +413,7 @@ struct Totals {
 pub fn run(ctx: &Ctx, which: &str) -> ! {
     let thorough = ctx.tier.is_thorough();
     let envs = envs(16);
+    EXPLORE_BUDGET_MS.store(if thorough { 900_000 } else { 60_000 }, std::sync::atomic::Ordering::Relaxed);
     let mut violations: Vec<Violation> = Vec::new();
     let mut tot = Totals { schedules: 0, steps: 0, per_pair: Vec::new(), single_outcome_pairs: Vec::new(), states: BTreeSet::new(), sys_states: 0 };
     let mut sample: Option<Value> = None;
@@ -485,7 +486,7 @@ pub fn run(ctx: &Ctx, which: &str) -> ! {
         for o in &out.outcomes {
             tot.states.insert(format!("{}#{o}", spec.name));
         }
-        tot.per_pair.push(json!({"programs": spec.name, "preemption_bound": bound, "kill": kill, "schedules": out.schedules, "distinct_outcomes": out.outcomes.len(), "distinct_system_states": out.distinct_states, "max_points": out.max_points, "capped": out.schedules >= cap}));
+        tot.per_pair.push(json!({"programs": spec.name, "preemption_bound": bound, "kill": kill, "schedules": out.schedules, "distinct_outcomes": out.outcomes.len(), "distinct_system_states": out.distinct_states, "max_points": out.max_points, "capped": out.stopped_early}));
         if out.outcomes.len() == 1 && !kill {
             tot.single_outcome_pairs.push(spec.name.clone());
         }
